@@ -83,8 +83,9 @@ def reparse_if_needed(student_code=None, report=MAIN_REPORT):
             cait['error'] = failures.get(student_code)
             cait['success'] = cait['error'] is None
             return cait
-        # Try to steal parse from Source module, if available
-        if report[SOURCE_TOOL_NAME]['success']:
+        # Try to steal parse from Source module, if it is a parse of this code
+        if (report[SOURCE_TOOL_NAME]['success'] and report[SOURCE_TOOL_NAME]['ast'] is not None
+                and report[SOURCE_TOOL_NAME].get('code') == student_code):
             student_ast = report[SOURCE_TOOL_NAME]['ast']
             cait['success'], cait['error'] = True, None
         else:
